@@ -1082,7 +1082,7 @@ func (e *Exec) specEnvAt(fr *Frame, st *State) *SpecEnv {
 		if !ok || v.Loc == nil || e.isModelStruct(pt.Elem()) {
 			continue
 		}
-		if v.Loc.Kind == LCell || v.Loc.Kind == LBox {
+		if v.Loc.Kind == LCell || v.Loc.Kind == LBox || v.Loc.Kind == LArray {
 			env.vars[fv.Name()] = Val{T: e.load(st, v.Loc), Typ: pt.Elem()}
 		}
 	}
